@@ -195,4 +195,9 @@ def build(tier, repo):
     rc.cone_product_rule(r7, w, "cvxprog", "cpl")
     rc.cone_product_rule(r7, w, "cvxprog", "cp")
     r7.require(4)
+    from .. import solver_rules as sr5
+    r8 = chk.rule("C04-R8", "the operator wrappers of cp/cpl forward alpha and beta in every call of the wrapped operator",
+                  "residuals are those of the problem that was posed (A x - b, not A x) when G, A are given as functions")
+    chk.note_analysed("forwarding_calls", sr5.closure_forwards_parameters_rule(r8, w, [("cvxprog", "cp"), ("cvxprog", "cpl"), ("cvxprog", "gp")]))
+    r8.require(4)
     return chk
